@@ -78,6 +78,20 @@ def strip_reference(code: str) -> str:
     return out
 
 
+def greedy_listed(code: str) -> str:
+    """what the LISTED findings D12c/D12d describe: the last `do {` of the line is paired with the last `} while (0)`, `do` is matched
+    anywhere, repeated until nothing matches (a search aid: a wrong result that is NOT this one is a different violation)"""
+    pat = re.compile(r"(.*)do\s*\{(.*)}\s*while\s*\(0\)(.*)")
+    m = pat.search(code)
+    if not m:
+        return code
+    tmp = ""
+    while m:
+        tmp = m.group(1) + m.group(2) + m.group(3)
+        m = pat.search(tmp)
+    return tmp + "\n"
+
+
 def gen_do_while(rnd, depth=0):
     parts = []
     for _ in range(rnd.randint(1, 3)):
@@ -85,7 +99,8 @@ def gen_do_while(rnd, depth=0):
         if k < 0.4 and depth < 3:
             parts.append("do {" + gen_do_while(rnd, depth + 1) + "}" + rnd.choice([" ", ""]) + "while" + rnd.choice([" ", ""]) + "(0)" + rnd.choice([";", ""]))
         elif k < 0.5:
-            parts.append(rnd.choice(["undo {x;} while(0);", "redo { y; } while (0)", "do_it(); ", "while (0) {}", "do { z; } while (1);", "todo = 1;"]))
+            parts.append(rnd.choice(["undo {x;} while(0);", "redo { y; } while (0)", "do_it(); ", "while (0) {}", "do { z; } while (1);", "todo = 1;",
+                                     "do { i = i + 1; } while (i < 4); ", "while (RsV) { RsV = RsV - 1; } "]))
         else:
             parts.append(rnd.choice(["RdV = RsV + 1; ", "if (RsV) { RdV = 2; } ", "{ a; } ", "f(x, (y)); "]))
     return "".join(parts)
@@ -184,9 +199,9 @@ def run(tier):
                 exp = strip_reference(s)
                 if norm(r["r"]) != norm(exp):
                     # listed finding D12c: an identifier ending in `do` is treated as the keyword
-                    if "D12c" in known and re.search(r"\wdo\s*\{", s):
+                    if "D12c" in known and re.search(r"\wdo\s*\{", s) and r["r"] == greedy_listed(s):
                         n_look += 1
-                    elif "D12d" in known and re.search(r"\b(while|do)\b", exp):
+                    elif "D12d" in known and re.search(r"\b(while|do)\b", exp) and r["r"] == greedy_listed(s):
                         # a `do` / `while` that is not part of a do-while(0) wrapper remains after proper stripping
                         n_look += 1
                     else:
